@@ -1,2 +1,3 @@
 (* C01core runner: error-layer discipline / totality of the packet builder *)
 let registered = Registry.register "C01core" Pcore_run.run
+let registered_coq = Registry.register_coq "C01core" (Pcore_run.coq_header, Pcore_run.to_coq)
